@@ -254,7 +254,7 @@ package ro
 //@   ensures [fresh-gate-joins-downstream-teardown|C03] result != destination && is_Subscription(destination) ==> called(destination.Add)
 
 //@ func NewSubscriberWithConcurrencyMode
-//@   props C02
+//@   props C02 C01 C13
 //@   binds destination mode
 //@   scope destination mode
 //@   maypanic
